@@ -33,10 +33,11 @@ def generate(ctx):
     rng = ctx.rng
     # directed: the decoder is (re)initialised for a file beyond the first reset interval, for every
     # reset-table variant (normal, 4-byte entries, missing -> SpanInfo fallback, short table)
-    for rt in ["missing", "short", "normal", "entry4"] * (1 if ctx.tier == "quick" else 12):
+    # ... and with the table's entries NOT directly behind its 0x28-byte header (TableOffset 0x30 / 0x38)
+    for rt, gap in [("missing", None), ("short", None), ("normal", None), ("entry4", None), ("normal", 8), ("entry4", 16), ("short", 8), ("entry16", None), ("entry12", 8), ("entry2", None)] * (1 if ctx.tier == "quick" else 12):
         for _ in range(20):
             try:
-                case = S.vgen_case(rng, "chm", "medium", rtable=rt)
+                case = S.vgen_case(rng, "chm", "medium", rtable=rt, rtgap=gap)
             except Exception:
                 continue
             if case["meta"].get("lzx", {}).get("reset_intervals", 0) >= 2: break
@@ -46,7 +47,7 @@ def generate(ctx):
         # listing index of compressed members, farthest into the stream first
         far = sorted((j for j, m in enumerate(mem) if m["section"] == 1 and m["data"]), key=lambda j: -mem[j]["offset"])
         order = far + [j for j in range(len(mem)) if j not in far]
-        yield plan_case(case, order, "chm.restart-" + rt)
+        yield plan_case(case, order, "chm.restart-" + rt + ("-gap%d" % gap if gap else ""))
     n = 40 if ctx.tier == "quick" else 1200
     k = 0
     while k < n:
